@@ -429,27 +429,29 @@ static int mode_table(int W, long nps, int nfiles, char **files)
 		FILE *f = fopen(files[k], "r");
 		if (!f) { fprintf(stderr, "drv_time: cannot open %s\n", files[k]); return 3; }
 		while (fgets(line, sizeof line, f)) {
-			I x[14]; char *s = line; int n = 0;
-			while (n < 14 && next_int(&s, &x[n])) n++;
+			I x[15]; char *s = line; int n = 0;
+			while (n < 15 && next_int(&s, &x[n])) n++;
 			if (n == 0) continue;
-			if (n != 14) { fprintf(stderr, "drv_time: malformed row: %s", line); fclose(f); return 3; }
+			if (n != 15) { fprintf(stderr, "drv_time: malformed row: %s", line); fclose(f); return 3; }
 			int fn = (int)x[0]; now_t now = { x[5], x[6], x[7] };
-			I kind, clock, t, cls, pinned, fixed;
+			I kind, clock, t, cls, pinned, fixed, dev = 0;
 			if (fn == 0) {
 				ref_t r = RefTime(&p, x[1], x[2], &now);
 				kind = r.kind; clock = r.clock; t = r.t; cls = ClassTime(&p, x[1], x[2], &now);
 				pinned = DispatchTimeF(&p, 0, x[1], x[2], &now); fixed = DispatchTimeF(&p, FX_ALL, x[1], x[2], &now);
+				dev = !RefOK(&p, &r, pinned, &now);
 			} else if (fn == 1 || fn == 2) {
 				ref_t r = RefWalltime(&p, fn == 1, x[3], x[4], x[2], &now);
 				kind = r.kind; clock = r.clock; t = r.t; cls = ClassWalltime(&p, fn == 1, x[3], x[4], x[2], &now);
 				pinned = DispatchWalltimeF(&p, 0, fn == 1, x[3], x[4], x[2], &now);
 				fixed = DispatchWalltimeF(&p, FX_ALL, fn == 1, x[3], x[4], x[2], &now);
+				dev = !RefOK(&p, &r, pinned, &now);
 			} else {
 				kind = RefElapsed(&p, x[1], &now); clock = RefClock(&p, x[1]); t = RefWait(&p, x[1], &now); cls = 0;
 				pinned = fixed = TimeoutM(&p, x[1], &now);
 			}
 			rows++;
-			if (kind != x[8] || clock != x[9] || t != x[10] || cls != x[11] || pinned != x[12] || fixed != x[13]) {
+			if (kind != x[8] || clock != x[9] || t != x[10] || cls != x[11] || pinned != x[12] || fixed != x[13] || dev != x[14]) {
 				if (bad++ < 5) {
 					fprintf(stderr, "drv_time: oracle != spec on row %s  oracle: kind=%d clock=%d t=", line, (int)kind, (int)clock);
 					pr128(stderr, t); fprintf(stderr, " class=%d pinned=", (int)cls); pr128(stderr, pinned);
